@@ -82,6 +82,11 @@ def enumerated(tier, seed):
     for mode, k in ((2, 0), (2, 0xFF), (3, 7)):
         yield dict(kind="cas", level="virtualfile", steps=[[_big_file(65535, k, mode, "A"), _big_file(65535, k, mode, "B")],
                                                          [_big_file(65535, k, mode, "C")], [_big_file(10, 1, 0, "D")]])
+    # tapes that keep growing past 256 KiB and 512 KiB (any total size): every re-open must still see every file
+    yield dict(kind="cas", level="virtualfile", steps=[[_big_file(65535, 1, 0, "A"), _big_file(65535, 2, 0, "B")], [_big_file(65000, 3, 0, "C")],
+                                                     [_big_file(64000, 4, 0, "D"), _big_file(63000, 5, 0, "E")], [_big_file(10, 6, 0, "F")],
+                                                     [_big_file(65535, 7, 0, "G"), _big_file(65535, 8, 0, "H"), _big_file(65535, 9, 0, "I")],
+                                                     [_big_file(300, 10, 0, "J")]])
 
 
 def searches(tier):
